@@ -1850,7 +1850,7 @@ Proof.
 Qed.
 
 Lemma no_wakers_slot e w : slot e NO_WAKERS = Some w -> False.
-Proof. destruct e as [|[|[|e]]]; cbn; discriminate. Qed.
+Proof. unfold slot, NO_WAKERS. destruct e as [|[|[|e]]]; cbn; try discriminate. destruct e; discriminate. Qed.
 
 Lemma pres_pending_dec (r : pres) : (r = PRPending) \/ (r <> PRPending).
 Proof. destruct r; [right|right|right|left]; congruence. Qed.
@@ -1959,7 +1959,7 @@ Qed.
 
 Lemma ginv0 base mx rs src ws : ginv (st_new base mx rs src ws) ghost0.
 Proof.
-  unfold ginv, st_new, rh_new, wh_new, ghost0, wblocked. cbn.
+  unfold ginv, st_new, rh_new, wh_new, ghost0, wblocked. cbn -[slot NO_WAKERS].
   splits; auto; try (intros; discriminate); try (intros [?|?]; discriminate);
     intros e w Hs; exfalso; eapply no_wakers_slot; eauto.
 Qed.
